@@ -14,6 +14,7 @@ import (
 	"encoding/pem"
 	"fmt"
 	"math/big"
+	"os"
 	"runtime"
 	"sort"
 	"strings"
@@ -263,6 +264,29 @@ func setup() {
 	} else {
 		panic("harness: could not build the PKCS#12 seed with attributes")
 	}
+	// a bundle whose first safe is an UNENCRYPTED, EMPTY SafeContents (no certificate bag anywhere) next to the usual key
+	// bag: structurally fine, MAC restored - the decoders have to notice that there is no certificate
+	{
+		encData := []byte{0x06, 0x09, 0x2a, 0x86, 0x48, 0x86, 0xf7, 0x0d, 0x01, 0x07, 0x06}
+		emptyDataCI := []byte{0x06, 0x09, 0x2a, 0x86, 0x48, 0x86, 0xf7, 0x0d, 0x01, 0x07, 0x01, 0xa0, 0x04, 0x04, 0x02, 0x30, 0x00}
+		noCerts, ok := gen.DERReplaceWhere(pfx, func(t rder.TLV, c []byte) bool { return t.Tag == 0x30 && bytes.HasPrefix(c, encData) }, 0x30, func([]byte) []byte { return emptyDataCI })
+		if !ok {
+			panic("harness: encrypted safe not found in the PKCS#12 seed")
+		}
+		p12seeds = append(p12seeds, remac(noCerts))
+	}
+	// the file-based convenience reader on top of DecodeAll (it picks the key and the first certificate out of the result)
+	add("pkcs12.SM2P12Decrypt(reMAC)", true, p12seeds, func(b []byte) {
+		f, err := os.CreateTemp("", "c18p12-*.p12")
+		if err != nil {
+			return
+		}
+		name := f.Name()
+		defer os.Remove(name)
+		f.Write(remac(b))
+		f.Close()
+		pkcs12.SM2P12Decrypt(name, "pw")
+	})
 	add("pkcs12.DecodeAll(reMAC)", true, p12seeds, func(b []byte) { pkcs12.DecodeAll(remac(b), "pw") })
 	add("pkcs12.ToPEM(reMAC)", true, p12seeds, func(b []byte) { pkcs12.ToPEM(remac(b), "pw") })
 	// SM2 ciphertexts, signatures, points
